@@ -147,6 +147,13 @@ Theorem C11_cache_kind : forall cfb cfk rs r,
 Proof. exact c11_cache_kind. Qed.
 Print Assumptions C11_cache_kind.
 
+(* the element count the handed-back tree validates k against (_n_elements) is that of the kind it
+   currently serves, after any history X -> Y -> X ... (so with C11_cache_kind: of the requested kind) *)
+Theorem C11_cache_count : forall cfb cfk rs r,
+  let o := snd (c11_step cfb cfk (c11_run cfb cfk c11_init rs) r) in ob_n o = ob_kind o.
+Proof. exact c11_cache_count. Qed.
+Print Assumptions C11_cache_count.
+
 (* reconstruct=True always hands back a tree for exactly this call *)
 Theorem C11_cache_reconstruct : forall cfb cfk rs r, rq_reconstruct r = true ->
   c11_reflects (snd (c11_step cfb cfk (c11_run cfb cfk c11_init rs) r)) r.
